@@ -243,6 +243,19 @@ impl Prop for C12 {
     }
 
     fn check(c: &Case, obs: &mut Obs) {
+        // history round (core::history_round): the same inputs with `graphemes` flipped in between
+        if history_round(
+            c,
+            obs,
+            |c| {
+                let mut v = c.clone();
+                v.graphemes = !v.graphemes;
+                v
+            },
+            Self::check,
+        ) {
+            return;
+        }
         let a = chars_of(&c.a, c.graphemes);
         let b = chars_of(&c.b, c.graphemes);
         let big = a.len() * b.len() > BIG_CELLS;
